@@ -205,6 +205,7 @@ func H_C02_binary() {
 	vrt.Assume(vrt.Or(ta, tb))
 	a, ae := mk("x", dims, ta)
 	b, be := mk("y", dims, tb)
+	maybeUsedTogether(a, b)
 	for k := range ae {
 		switch op {
 		case "Div":
@@ -553,6 +554,7 @@ func H_C02_dot() {
 	vrt.Assume(vrt.Or(ta, tb))
 	a, ae := mk("x", dims, ta)
 	b, be := mk("y", dims, tb)
+	maybeUsedTogether(a, b)
 	y, err := a.Dot(b)
 	vrt.Assert("valid dot accepted", err == nil)
 	if err != nil {
@@ -587,6 +589,7 @@ func H_C02_matmul() {
 	vrt.Assume(vrt.Or(ta, tb))
 	a, ae := mk("x", da, ta)
 	b, be := mk("y", db, tb)
+	maybeUsedTogether(a, b)
 	y, err := a.MatMul(b)
 	vrt.Assert("valid matmul accepted", err == nil)
 	if err != nil {
